@@ -129,7 +129,13 @@ def apply_path(ctx, repo, qual, must_clear):
         return
     tgt = ast.unparse(loop.ast.target)
     a = [ast.unparse(x) for x in ic.args]
-    ctx.ob("R3", f"{qual}::applies-position-and-data", a == [f"{tgt}[0]", f"{tgt}[1]"], f"{fi.qual}: installs {a}, expected ({tgt}[0], {tgt}[1])", loc(fi, I.ast))
+    if isinstance(loop.ast.target, (ast.Tuple, ast.List)) and len(loop.ast.target.elts) == 2:
+        want = [ast.unparse(x) for x in loop.ast.target.elts]  # `for pos, data in changes`
+    else:
+        want = [f"{tgt}[0]", f"{tgt}[1]"]
+    # single-definition locals standing for the two components (`pos = change[0]`)
+    exp = [ast.unparse(g.expand(x, at=I)) for x in ic.args]
+    ctx.ob("R3", f"{qual}::applies-position-and-data", a == want or exp == want, f"{fi.qual}: installs {a}, expected ({', '.join(want)})", loc(fi, I.ast))
     # once per element: the install is executed on every iteration, no guard, no second install
     guards = g.guards(I, entry=loop, cut_back=True)
     only_iter = all(n is loop for n, l in guards)
